@@ -45,6 +45,8 @@ pub fn sem_jobs(thorough: bool, finish: bool) -> Vec<Job> {
             if fi == 0 {
                 // releasers dropped by the unwinder (their holder panics)
                 v.push(job(Cfg::new(fl, &[("fair", fair), ("permits", 1), ("k", 2), ("sizes", bits(&[1, 2])), ("cap", 3), ("rels", 2), ("unwind", 1)]), finish, thorough));
+                // the largest possible request (letter 6 = usize::MAX permits) next to small ones
+                v.push(job(Cfg::new(fl, &[("fair", fair), ("permits", 0), ("k", 3), ("sizes", bits(&[1, 6])), ("cap", 2), ("rels", 1)]), finish, thorough));
                 // a request that does not fit into 32 bits (letter 7 = 2^32 + 2 permits) next to small ones
                 v.push(job(Cfg::new(fl, &[("fair", fair), ("permits", 3), ("k", 2), ("sizes", bits(&[2, 7])), ("cap", 5), ("rels", 1)]), finish, thorough));
             }
@@ -200,6 +202,7 @@ pub fn ring_jobs(thorough: bool) -> Vec<Job> {
     v.push(job(Cfg::new("ringscript.arr64", &[("cap", 64)]), false, thorough));
     v.push(job(Cfg::new("ringscript.arr96", &[("cap", 96)]), false, thorough));
     v.push(job(Cfg::new("ringscript.arr128", &[("cap", 128)]), false, thorough));
+    v.push(job(Cfg::new("ringscript.arr65536", &[("cap", 65536)]), false, thorough));
     v.push(job(Cfg::new("ringscript.fix", &[("cap", 70)]), false, thorough));
     v.push(job(Cfg::new("ringscript.grow", &[("cap", 70)]), false, thorough));
     v
@@ -368,6 +371,8 @@ pub fn plan(prop: &str, tier: &str) -> Vec<Job> {
         "C11" => {
             let mut v = mpmc_jobs(t, false);
             v.extend(capscript_jobs(t));
+            // Clone::clone_from on shared handles
+            v.push(job(Cfg::new("handles.clonefrom", &[("x", 0)]), false, t));
             v.extend(oneshot_jobs(t));
             v.extend(state_jobs(t));
             v.extend(burst_jobs(t, &[2, 3]));
